@@ -8,6 +8,7 @@ BUDGET = {"quick": 4000, "thorough": 300000}
 RULE = ("token soups over the terminal alphabet of grammar.pest; grammar-directed templates (nesting up to 64) and "
         "single-edit mutations of them (delete / insert / duplicate a token, toggle '~', swap tag kinds); every tag kind x "
         "position of '~' x else / else-chain form; EXHAUSTIVELY every tag opener x body of length ≤ 2 (thorough: 3) over {- ! space é a } ~} x every closer; each compiled by the real crate under catch_unwind in a child process "
+        "EXHAUSTIVELY every tag kind x every combination of nothing / '~' / '~~' in each position where a '~' may or may not stand (18 shapes); "
         "EXHAUSTIVELY every path of ≤ 3 pieces over {@ ../ ./ this [this] a . / [0] 0 @root @index} in every position that takes a path; and by the Lean model (AST, error variant, line, column compared); plus registrations of a bad source over a good "
         "one (registry unchanged; also in dev mode over a name that follows a file); non-trivial = not plain text; distinct by source")
 DEFINITE_FLOOR = 0.99
@@ -113,8 +114,29 @@ def paths(maxlen):
     return outs
 
 
+def tildes():
+    """EXHAUSTIVE: every tag kind with each of its positions where a whitespace-control '~' may or may not stand filled with
+    nothing, '~' or '~~' – all combinations (legal ones compile, the others are a TemplateError, none may panic)"""
+    import itertools
+    shapes = ["{{@a@}}", "{{{@a@}}}", "{{@{@a@}@}}", "{{@&@a@}}", "{{@#if a@}}x{{@/if@}}", "{{#if a}}x{{@else@}}y{{/if}}",
+              "{{#if a}}x{{@else@ if b@}}y{{/if}}", "{{#if a}}x{{@^@}}y{{/if}}", "{{@>@ p@}}", "{{@#>@ p@}}x{{@/p@}}", "{{@*@d@}}",
+              "{{@#*@inline \"i\"@}}x{{@/inline@}}", "{{{{@raw@}}}}x{{{{@/raw@}}}}", "{{@!@c@}}", "{{@!--@c@--@}}", "{{@foo@ (@bar@ 1@)@ k=1@}}",
+              "{{@#each a as |x|@}}x{{@/each@}}", "{{#each a as @|x y|@}}x{{/each}}"]
+    outs = []
+    for sh in shapes:
+        parts = sh.split("@")
+        k = len(parts) - 1
+        fills = ["", "~", "~~"] if k <= 4 else ["", "~"]
+        for combo in itertools.product(fills, repeat=k):
+            outs.append("".join(p + c for p, c in zip(parts, combo + ("",))))
+    return outs
+
+
 def generate(rng, n, tier="quick"):
     out = []
+    for k, src in enumerate(tildes()):
+        out.append(({"kind": "compile", "src": src, "name": None, "prevent_indent": False, "id": "%s-tilde-%05d" % (ID, k)},
+                    {"mode": "tilde", "src": src}))
     for k, src in enumerate(paths(3)):
         out.append(({"kind": "compile", "src": src, "name": None, "prevent_indent": False, "id": "%s-path-%05d" % (ID, k)},
                     {"mode": "path", "src": src}))
